@@ -12,7 +12,7 @@ tvars == <<l, ev, defines, upstream, sources, cfgkey>>
 TInit == l = 1 /\ ev = [ev |-> "init"] /\ defines = {} /\ upstream = {} /\ sources = {} /\ cfgkey = ""
 Consume(kinds) == l <= Len(Trace) /\ Trace[l].ev \in kinds /\ l' = l + 1 /\ ev' = Trace[l]
 
-TSrc    == Consume({"profile", "abstraction", "names", "ref", "named", "parse"}) /\ UNCHANGED <<defines, upstream, sources, cfgkey>>
+TSrc    == Consume({"profile", "abstraction", "names", "flat", "ref", "named", "parse"}) /\ UNCHANGED <<defines, upstream, sources, cfgkey>>
 TBuild  == /\ Consume({"build"})
            /\ defines' = SeqToSet(Trace[l].defines) /\ upstream' = SeqToSet(Trace[l].upstream)
            /\ cfgkey' = Trace[l].cfgkey /\ UNCHANGED sources
@@ -30,6 +30,10 @@ C19Profile == ev.ev = "profile" =>
     /\ Must("C19", ev.file \o "|local", "a block lacks its include if exists <local/...> line", LocalsOK(ev), BadLocals(ev))
 C19Abstraction == ev.ev = "abstraction" =>
     Must("C19", ev.file \o "|dotd", "abstraction does not include its own .d directory", AbstractionOK(ev), ev.incs)
+\* the flat output directory of a real build holds every source profile the ignore lists of that distribution do
+\* not name (as NAME or NAME.apparmor.d)
+C19Flat == ev.ev = "flat" =>
+    Must("C19", "flat|" \o ev.cfgkey, "source profiles are missing from the flat output directory of a build", ev.lost = <<>>, ev.lost)
 C19Names == ev.ev = "names" =>
     Must("C19", "basenames", "two source profiles share a base name: the flat output directory loses one", Dups(ev.names) = {}, Dups(ev.names))
 
